@@ -793,6 +793,66 @@ def fam_dup_in_set(rng, n):
     return out
 
 
+def fam_redefine_in_packet(rng, n, want=("export", "common", "json"), lossless=False):
+    """C01 / C04 / C05 / C06 / C13: ONE packet in which an id is used, REDEFINED and used again —
+    [template A][data A][template A'][data A'] (the first definition possibly from an earlier call) — where A' has fewer, more,
+    reordered or differently typed fields than A (anything remembered per id, per packet or per flowset across the redefinition —
+    a layout, a plan, a record size — meets a record it does not fit).  The projected fields of the common view are among the
+    fields, all conversions are requested"""
+    out = []
+    pool9 = [(1, 4), (2, 4), (7, 2), (11, 2), (8, 4), (12, 4), (27, 16), (28, 16), (4, 1), (21, 4), (22, 4), (56, 6), (80, 6), (10, 2)]
+    pool10 = [(1, 4), (2, 4), (7, 2), (11, 2), (8, 4), (12, 4), (27, 16), (28, 16), (4, 1), (152, 8), (153, 8), (56, 6), (80, 6), (10, 2)]
+    if lossless:
+        # only fields whose decoded value keeps every byte (numbers of natural width, addresses): the value-kind findings of C04/C05
+        # (protocol names, MAC text, durations) stay out of properties that do not list them
+        pool9 = pool10 = [(1, 4), (2, 4), (7, 2), (11, 2), (8, 4), (12, 4), (27, 16), (28, 16), (10, 2), (14, 2)]
+    for _ in range(n):
+        proto = rng.choice([9, 10])
+        pool = pool9 if proto == 9 else pool10
+        tid = rng.choice([256, 257, 999])
+        A = rng.sample(pool, rng.randrange(2, 7))
+        kind = rng.choice(["fewer", "more", "reorder", "other", "one"])
+        if kind == "fewer":
+            B = A[:rng.randrange(1, len(A))]
+        elif kind == "more":
+            B = A + rng.sample(pool, rng.randrange(1, 4))
+        elif kind == "reorder":
+            B = list(reversed(A))
+        elif kind == "one":
+            B = [rng.choice(pool)]
+        else:
+            B = rng.sample(pool, rng.randrange(1, 6))
+        k = [rng.randrange(1, 1000)]
+        def tmpl(lens):
+            if proto == 9:
+                return {"templates": {"ts": [{"id": tid, "fieldCount": len(lens), "fields": [{"typ": t, "len": l} for t, l in lens]}], "pad": ""}}
+            return {"templates": {"ts": [{"id": tid, "fields": [{"typ": t, "len": l, "ent": None} for t, l in lens]}], "pad": ""}}
+        def data(lens, nrec):
+            recs = []
+            for _ in range(nrec):
+                if proto == 9:
+                    recs.append([hx(rbytes(rng, l)) for _, l in lens])
+                else:
+                    recs.append([{"content": hx(rbytes(rng, l)), "form": "fixed"} for _, l in lens])
+            return {"data": {"id": tid, "recs": recs, "pad": ""}}
+        def pkt(sets):
+            k[0] += 1
+            if proto == 9:
+                return {"v9": {"m": {"count": len(sets), "sysUpTime": k[0], "unixSecs": k[0], "seq": k[0], "sourceId": 1, "sets": sets}}}
+            return {"ipfix": {"m": {"exportTime": k[0], "seq": k[0], "odid": 1, "sets": sets}}}
+        ops = [op_new(0)]
+        w = list(want)
+        if rng.random() < 0.4:
+            ops.append(op_parse(0, msgs=[pkt([tmpl(A)])], want=w))
+            ops.append(op_parse(0, msgs=[pkt([data(A, rng.choice([1, 2])), tmpl(B), data(B, rng.choice([1, 3]))])], want=w))
+        else:
+            ops.append(op_parse(0, msgs=[pkt([tmpl(A), data(A, rng.choice([1, 2])), tmpl(B), data(B, rng.choice([1, 3]))])], want=w))
+        if rng.random() < 0.5:
+            ops.append(op_parse(0, msgs=[pkt([data(B, 1)])], want=w))
+        out.append(("redefine-in-packet-%d-%s" % (proto, kind), ops))
+    return out
+
+
 def fam_chain_many_templates(rng, sizes=(1100,)):
     """C11 / C06: ONE packet that announces more than a thousand templates (ids 256..), then data for the first, a middle and the last
     of them — joined in one call on parser 0, one packet per call on parser 1 (any bookkeeping keyed to the cache SIZE that runs per
